@@ -46,6 +46,7 @@ var Mutants = map[string][]Mutant{
 		{"Paths.Settle ignores its rule", "path_intersection.go", `return bentleyOttmann\(ps, nil, opSettle, fillRule\)`, `return bentleyOttmann(ps, nil, opSettle, NonZero)`, "E9.wrapper"},
 	},
 	"C03": {
+		{"replace keeps the pen from before the rest is joined back", "path.go", `\t\t\ti = len\(p\.d\)\n\t\t\tp = p\.Join\(r\) // join the rest of the base path\n\t\t\} else \{\n\t\t\ti \+= cmdLen\(cmd\)\n\t\t\}\n\t\tstart = Point\{p\.d\[i-3\], p\.d\[i-2\]\}\n`, "\t\t\ti = len(p.d)\n\t\t\tstart = end\n\t\t\tp = p.Join(r) // join the rest of the base path\n\t\t} else {\n\t\t\ti += cmdLen(cmd)\n\t\t\tstart = Point{p.d[i-3], p.d[i-2]}\n\t\t}\n", "E2.pen-reread"},
 		{"quadratic flattener emits QuadTo", "path_util.go", `_, _, _, p0, p1, p2 = quadraticBezierSplit\(p0, p1, p2, t\)\n\t\tp\.LineTo\(p0\.X, p0\.Y\)`, "_, _, _, p0, p1, p2 = quadraticBezierSplit(p0, p1, p2, t)\n\t\tp.QuadTo(p1.X, p1.Y, p0.X, p0.Y)", "E10.command-set"},
 		{"replace does not restart at the remainder", "path.go", `\t\t\ti = len\(p\.d\)\n`, ``, "E10.replace-shape"},
 		{"sweep input qs not flattened", "path_intersection.go", `\t\tfor i := range qs \{\n\t\t\tqs\[i\] = qs\[i\]\.Flatten\(Tolerance\)\n\t\t\}\n`, ``, "E10.consumer"},
@@ -60,6 +61,7 @@ var Mutants = map[string][]Mutant{
 		{"closed flag also set by MoveTo", "path_stroke.go", `\t\tcase MoveToCmd:\n\t\t\tend = Point\{p\.d\[i\+1\], p\.d\[i\+2\]\}\n\t\tcase LineToCmd:\n\t\t\tend = Point\{p\.d\[i\+1\], p\.d\[i\+2\]\}\n\t\t\tn := end`, "\t\tcase MoveToCmd:\n\t\t\tend = Point{p.d[i+1], p.d[i+2]}\n\t\t\tclosed = false\n\t\tcase LineToCmd:\n\t\t\tend = Point{p.d[i+1], p.d[i+2]}\n\t\t\tn := end", "E11.cap-join"},
 	},
 	"C05": {
+		{"SplitAt's line case leaves the iteration early without advancing", "path.go", `\t\t\t\t\tif Tcurve < T\+dT \{\n\t\t\t\t\t\tq\.LineTo\(end\.X, end\.Y\)\n\t\t\t\t\t\}\n\t\t\t\t\tT \+= dT\n`, "\t\t\t\t\tif Tcurve < T+dT {\n\t\t\t\t\t\tq.LineTo(end.X, end.Y)\n\t\t\t\t\t} else {\n\t\t\t\t\t\ti += cmdLen(cmd)\n\t\t\t\t\t\tstart = end\n\t\t\t\t\t\tcontinue\n\t\t\t\t\t}\n\t\t\t\t\tT += dT\n", "E2.accumulator-advance"},
 		{"SplitAt copies an uncut quad without adding its length", "path.go", `\t\t\t\tif j == len\(ts\) \{\n\t\t\t\t\tq\.QuadTo\(cp\.X, cp\.Y, end\.X, end\.Y\)`, "\t\t\t\tif j == len(ts) || T+quadraticBezierLength(start, cp, end) < ts[j] {\n\t\t\t\t\tq.QuadTo(cp.X, cp.Y, end.X, end.Y)", "E2.accumulator-advance"},
 		{"SplitAt's line case advances the position only when it cut", "path.go", `\t\t\t\t\tif Tcurve < T\+dT \{\n\t\t\t\t\t\tq\.LineTo\(end\.X, end\.Y\)\n\t\t\t\t\t\}\n\t\t\t\t\tT \+= dT\n`, "\t\t\t\t\tif Tcurve < T+dT {\n\t\t\t\t\t\tq.LineTo(end.X, end.Y)\n\t\t\t\t\t} else {\n\t\t\t\t\t\tT += dT\n\t\t\t\t\t}\n", "E2.accumulator-advance"},
 		{"negative offset: one period added once", "path.go", `\t\toffset = math\.Mod\(offset, dTotal\) \+ dTotal\n`, "\t\toffset += dTotal\n", "E11.dash-offset-range"},
@@ -70,6 +72,12 @@ var Mutants = map[string][]Mutant{
 		{"arc cut relative to the arc start", "path.go", `ellipseSplit\(rx, ry, phi, cx, cy, startTheta, theta2, theta\)`, `ellipseSplit(rx, ry, phi, cx, cy, theta1, theta2, theta)`, "E11.cut-carried"},
 	},
 	"C06": {
+		{"windings counts interior tangent hits", "path.go", `\t\t\tif !z\.Tangent \{\n\t\t\t\tn \+= d`, "\t\t\tif !z.Same {\n\t\t\t\tn += d", "E9.tangent-not-counted"},
+		{"Crossings counts interior tangent hits", "path.go", `\t\t\t\tif !z\.Tangent \{\n\t\t\t\t\tni\+\+`, "\t\t\t\tif !z.Same {\n\t\t\t\t\tni++", "E9.tangent-not-counted"},
+		{"Crossings pairs overlapping hits", "path.go", `\t\t\t\} else if z\.Same \{\n\t\t\t\tcontinue\n\t\t\t\} else if`, "\t\t\t} else if", "E9.overlap-skipped"},
+		{"windings drops an end-point hit whose list neighbour overlaps", "path.go", `\t\t\} else if prev == nil \{\n\t\t\tprev = &zs\[i\]\n\t\t\} else \{\n\t\t\t// count when`, "\t\t} else if prev == nil && i+1 < len(zs) && zs[i+1].Same {\n\t\t\t// ignore\n\t\t} else if prev == nil {\n\t\t\tprev = &zs[i]\n\t\t} else {\n\t\t\t// count when", "E9.endpoint-hit-consumed"},
+		{"ray/cubic hit direction from the raw derivative", "path_intersection_util.go", `deriv := cubicBezierDirection\(p0, p1, p2, p3, root\)`, "deriv := cubicBezierDeriv(p0, p1, p2, p3, root)", "E9.cubic-direction"},
+		{"Path.direction from the raw cubic derivative", "path.go", `cubicBezierDirection\(start, cp1, cp2, end, t\)\.Norm\(1\.0\)`, "cubicBezierDeriv(start, cp1, cp2, end, t).Norm(1.0)", "E9.cubic-direction"},
 		{"ellipse hit angle with straight radii", "path_intersection_util.go", `angle := math\.Atan2\(y\*radius\.X, x\*radius\.Y\)`, "angle := math.Atan2(y*radius.Y, x*radius.X)", "E3.ellipse-param-angle"},
 		{"ellipse hit angle with swapped coordinates", "path_intersection_util.go", `angle := math\.Atan2\(y\*radius\.X, x\*radius\.Y\)`, "angle := math.Atan2(x*radius.Y, y*radius.X)", "E3.ellipse-param-angle"},
 		{"ray hull ignores the control point", "path_intersection.go", `ymax := math\.Max\(math\.Max\(start\.Y, end\.Y\), cp\.Y\)`, `ymax := math.Max(start.Y, end.Y)`, "E3.ray-hull"},
@@ -77,6 +85,8 @@ var Mutants = map[string][]Mutant{
 		{"Windings looks at the whole path only", "path.go", `\tfor _, pi := range p\.Split\(\) \{\n\t\tzs := pi\.RayIntersections\(x, y\)`, "\tfor _, pi := range []*Path{p} {\n\t\tzs := pi.RayIntersections(x, y)", "E9.subpaths"},
 	},
 	"C07": {
+		{"Decompose merges the rotations for every similarity", "util.go", `\tif Equal\(sx, 1\.0\) && Equal\(sy, 1\.0\) \{\n\t\ttheta \+= phi`, "\tif m.IsSimilarity() {\n\t\ttheta += phi", "E11.rotation-merge"},
+		{"Decompose merges the rotations when the magnitudes agree", "util.go", `\tif Equal\(sx, 1\.0\) && Equal\(sy, 1\.0\) \{\n\t\ttheta \+= phi`, "\tif Equal(math.Abs(sx), math.Abs(sy)) {\n\t\ttheta += phi", "E11.rotation-merge"},
 		{"sweep flip decided by the diagonal", "path.go", `_, _, _, xscale, yscale, _ := m\.Decompose\(\)`, `xscale, yscale := m[0][0], m[1][1]`, "E11.sweep-flip"},
 		{"Transform passes radians to Rotate", "path.go", `T := m\.Rotate\(phi \* 180\.0 / math\.Pi\)`, `T := m.Rotate(phi)`, "E8.units"},
 		{"Join passes radians to ArcTo", "path.go", `p\.ArcTo\(d\[1\], d\[2\], d\[3\]\*180\.0/math\.Pi, large, sweep, d\[5\], d\[6\]\)`, `p.ArcTo(d[1], d[2], d[3], large, sweep, d[5], d[6])`, "E8.units"},
@@ -91,6 +101,9 @@ var Mutants = map[string][]Mutant{
 		{"Rect.Add max reads the low field", "util.go", `x1 := math\.Max\(r\.X1, q\.X1\)`, `x1 := math.Max(r.X1, q.X0)`, "E3.mirror"},
 	},
 	"C09": {
+		{"Reverse skips segments that end where they start", "path.go", `(\t\t\tend = Point\{p\.d\[i-3\], p\.d\[i-2\]\}\n\t\t\}\n)(\n\t\tswitch cmd \{\n\t\tcase MoveToCmd:\n\t\t\tif closed \{)`, "${1}\t\tif cmd != MoveToCmd && cmd != CloseCmd && start.Equals(end) {\n\t\t\tcontinue\n\t\t}\n${2}", "E2.record-preserved"},
+		{"Reverse emits a cubic only when it is not degenerate", "path.go", `(\t\t\tcx2, cy2 := p\.d\[i\+3\], p\.d\[i\+4\]\n)(\t\t\tq\.d = append\(q\.d, CubeToCmd, cx2, cy2, cx1, cy1, end\.X, end\.Y, CubeToCmd\)\n)`, "${1}\t\t\tif !start.Equals(end) {\n\t${2}\t\t\t}\n", "E2.record-preserved"},
+		{"quadratic length takes the logarithm unguarded", "path_util.go", `\tif num <= 0\.0 \|\| den <= 0\.0 \{`, "\tif false {", "E4.log-domain"},
 		{"SplitAt does not lift the pen between sub-paths", "path.go", `\t\t\t\tend = Point\{ps\.d\[i\+1\], ps\.d\[i\+2\]\}\n\t\t\t\tq\.MoveTo\(end\.X, end\.Y\)\n`, "\t\t\t\tend = Point{ps.d[i+1], ps.d[i+2]}\n", "E2.move-replayed"},
 		{"Reverse keeps the closed flag across sub-paths", "path.go", `\t\t\t\tq\.d = append\(q\.d, CloseCmd, first\.X, first\.Y, CloseCmd\)\n\t\t\t\tclosed = false\n\t\t\t\}\n\t\t\tif i != 0 \{`, "\t\t\t\tq.d = append(q.d, CloseCmd, first.X, first.Y, CloseCmd)\n\t\t\t}\n\t\t\tif i != 0 {", "E11.subpath-flag"},
 		{"half-turn shortcut taken for a chord equal to the radius", "path_util.go", `Equal\(math\.Abs\(x2-x1\), 2\.0\*rx\)`, "Equal(math.Abs(x2-x1), rx)", "E3.arc-shortcut"},
@@ -110,6 +123,7 @@ var Mutants = map[string][]Mutant{
 		{"Close retags one end only", "path.go", `\t\tp\.d\[len\(p\.d\)-1\] = CloseCmd\n\t\tp\.d\[len\(p\.d\)-cmdLen\(LineToCmd\)\] = CloseCmd\n`, "\t\tp.d[len(p.d)-1] = CloseCmd\n", "E2.retag"},
 	},
 	"C11": {
+		{"number table becomes a 128-entry array", "path.go", `cmdLens := map\[byte\]int\{`, "cmdLens := [128]int{", "E4.table-index"},
 		{"dec prints Precision decimals again", "util.go", `\ts := fmt\.Sprintf\("%\.\*f", decimals, f\)\n`, "\ts := fmt.Sprintf(\"%.*f\", Precision, f)\n\t_ = decimals\n", "E11.precision-unit"},
 		{"bad path data drawn anyway", "svg.go", `\t\t\tbreak // p is nil\n`, "", "E4.value-on-error"},
 		{"smooth cubic reflects after any command", "path.go", `\t\t\tif prevCmd == 'C' \|\| prevCmd == 'c' \|\| prevCmd == 'S' \|\| prevCmd == 's' \{\n\t\t\t\tcp1 = p0\.Mul\(2\.0\)\.Sub\(c\)\n\t\t\t\}\n`, "\t\t\tcp1 = p0.Mul(2.0).Sub(c)\n", "E11.svg-smooth"},
@@ -165,6 +179,7 @@ var Mutants = map[string][]Mutant{
 		{"rasterizer ignores the fill rule", "renderers/rasterizer/rasterizer.go", `\t\tr\.scanner\.SetWinding\(style\.FillRule != canvas\.EvenOdd\)\n`, ``, "E6.style-field"},
 	},
 	"C15": {
+		{"DrawPath skips the coordinate view at the origin", "canvas.go", `\tcoord := c\.coordView\.Dot\(Point\{x, y\}\)\n\tm = m\.Mul\(c\.view\)\.Translate\(coord\.X, coord\.Y\)\n\n\tfor _, path := range paths`, "\tm = m.Mul(c.view)\n\tif x != 0.0 || y != 0.0 {\n\t\tcoord := c.coordView.Dot(Point{x, y})\n\t\tm = m.Translate(coord.X, coord.Y)\n\t}\n\n\tfor _, path := range paths", "E11.draw-matrix"},
 		{"FitImage reflects about the size taken before the crop", "canvas.go", `m = m\.ReflectYAbout\(float64\(img\.Bounds\(\)\.Size\(\)\.Y\) / 2\.0\)\n\t\}\n\tif c\.coordSystem == CartesianII \|\| c\.coordSystem == CartesianIII \{\n\t\tm = m\.ReflectXAbout\(float64\(img\.Bounds\(\)\.Size\(\)\.X\) / 2\.0\)\n\t\}\n\tc\.RenderImage\(img, m\)\n\}\n\n// DrawPath`, "m = m.ReflectYAbout(height / 2.0)\n\t}\n\tif c.coordSystem == CartesianII || c.coordSystem == CartesianIII {\n\t\tm = m.ReflectXAbout(float64(img.Bounds().Size().X) / 2.0)\n\t}\n\tc.RenderImage(img, m)\n}\n\n// DrawPath", "E11.reflect-image"},
 		{"DrawPath shares the style between its paths again", "canvas.go", `\t\tstyle := style // the stroke may be dropped for this path only\n`, "", "E11.draw-loop-state"},
 		{"checkDash takes the parity on the undoubled array", "path.go", `\ti, pos := dashStart\(offset, dd\)\n\tif length <= pos\+dd\[i\] \{`, "\ti, pos := dashStart(offset, d)\n\tif length <= pos+d[i] {", "E11.dash-parity"},
